@@ -181,8 +181,6 @@ open Lean Elab Command in
 elab "#restate_generated" : command => do
   let env ← getEnv
   let pre := `HugrVerif.Props.C17
-  let some me := env.getModuleIdx? `HugrVerif.Gen.SchemaIndex | throwError "index not imported"
-  let _ := me
   let mut todo : Array (Name × TheoremVal) := #[]
   for (n, ci) in env.constants.map₁.toList do
     if pre.isPrefixOf n && !n.isInternal then
